@@ -422,6 +422,10 @@ def run_property(mod, prop_id, tier, seed, replay=None):
     }
     with open(os.path.join(EVIDENCE_DIR, f"{prop_id}.json"), "w") as f:
         json.dump(evidence, f, indent=1, default=str)
+    # a copy per tier, so that a later quick run does not erase what the last thorough run observed
+    os.makedirs(os.path.join(EVIDENCE_DIR, tier), exist_ok=True)
+    with open(os.path.join(EVIDENCE_DIR, tier, f"{prop_id}.json"), "w") as f:
+        json.dump(evidence, f, indent=1, default=str)
 
     for fid, k in sorted(merged["known"].items()):
         e = known_entries[fid]
